@@ -64,6 +64,12 @@ def run(e: Engine, rep: Report):
     rep.rule('R2.7', 'who-may-accept in the HTTP edge: a 2xx Reply is built '
              'only after self.handoff(...) on every path')
     r27(e, rep)
+    rep.rule('R2.8', 'the reply the server sends is the object it gave to '
+             'HAVE_DATA: once an enqueue result has tested as a failure, '
+             'that object itself is written (reply.copy(...) / an attribute '
+             'of it assigned) before the handler returns - re-binding the '
+             'local name changes nothing on the wire')
+    r28(e, rep)
     rep.floor('R2.1', 4, 'reply decision sites')
 
 
@@ -1067,3 +1073,65 @@ def r27(e: Engine, rep: Report):
                       reason='self.handoff(...) on every path before')
     if n < 1:
         rep.error('anchor vanished: success replies in slimta.edge.wsgi')
+
+
+# -------------------------------------------------------------------- R2.8
+def r28(e: Engine, rep: Report):
+    cls, meth = EDGES[0] if EDGES[0][1] == 'HAVE_DATA' else (
+        [x for x in EDGES if x[1] == 'HAVE_DATA'] or [EDGES[0]])[0]
+    ctx = e.method_ctx(cls, meth)
+    g = e.build(ctx, inline=e.inline_same_self(
+        deny=['handoff', '_call_validator']),
+        raises=lambda b, n, r: set(), max_depth=3)
+    where = ctx.func.qname
+    rep.functions.add(where)
+    rp = '%s#%d' % (ctx.func.params[1], g.entry.frame.id)
+    fails = []
+    for t in g.of_kind('test'):
+        a = t.ast
+        if isinstance(a, ast.Call) and isinstance(a.func, ast.Name) and \
+                a.func.id == 'isinstance' and len(a.args) == 2 and \
+                fail_classes(e, ctx, a.args[1]):
+            fails.append(t)
+    if not fails:
+        rep.error('anchor vanished: failure tests in %s (R2.8)' % where)
+        return
+
+    def writes_reply(n):
+        if n.kind == 'call' and isinstance(n.ast.func, ast.Attribute) and \
+                n.ast.func.attr in ('copy', 'update') and n.ast.args:
+            try:
+                return canon(n.ast.func.value, n.frame) == rp
+            except Exception:
+                return False
+        if n.kind == 'stmt' and isinstance(n.ast, (ast.Assign,
+                                                   ast.AugAssign)):
+            tg = n.ast.targets if isinstance(n.ast, ast.Assign) \
+                else [n.ast.target]
+            for t in tg:
+                if isinstance(t, ast.Attribute):
+                    try:
+                        if canon(t.value, n.frame) == rp:
+                            return True
+                    except Exception:
+                        pass
+        return False
+
+    def step(n, label, st):
+        if n in fails and label == 'T':
+            return 'failed'
+        if st == 'failed' and writes_reply(n):
+            return 'written'
+        return st
+    rep.evaluations += 1
+    pth = dataflow.typestate_witness(
+        g, 'ok', step, lambda n, st: n is g.exit and st == 'failed')
+    rep.check(pth is None, 'R2.8', where,
+              'a failed result is written into the reply the server holds',
+              'after an enqueue result tested as a failure the handler can '
+              'return without having written the reply object it was given '
+              '(a re-bound local is not what the server sends): the client '
+              'reads the success reply that was prepared beforehand',
+              loc=ctx.func.loc(), reason='reply.copy(...) / attribute '
+              'assignment on every failure path',
+              witness=dataflow.render_path(pth, 14) if pth else None)
